@@ -14,12 +14,6 @@ import (
 	"context"
 	"encoding/xml"
 	"fmt"
-	"go/ast"
-	"go/parser"
-	"go/printer"
-	"go/token"
-	"path/filepath"
-	"sort"
 	"strings"
 	"sync"
 	"time"
@@ -770,71 +764,89 @@ func progVia(ws []string, id string, reads int, ret string, vias []int) c08.Prog
 	return p
 }
 
-// Facts regenerates lean/XmppModel/Generated/C07.lean from the AST of session.go: through what
-// every writing method of responseChecker (the TokenReadEncoder handed to handlers) sends its
-// tokens.
-func Facts(repo string) (string, error) {
-	fset := token.NewFileSet()
-	f, err := parser.ParseFile(fset, filepath.Join(repo, "session.go"), nil, 0)
+// ProbeToks is the token list of one probe shape: an element wrapped in `level` elements of
+// another namespace; nameC 0..4 = iq without namespace / jabber:client / jabber:server /
+// urn:other / a message; idC 0 = the request's id, 1 = another id, 2 = none; typC 0..5 = result,
+// error, get, set, none, an undefined type.  (Lean: Serve.probeToks.)
+func ProbeToks(level, nameC, idC, typC int) []xml.Token {
+	n := []xml.Name{name("iq"), {Space: c08.NSClient, Local: "iq"}, {Space: c08.NSServer, Local: "iq"}, {Space: "urn:other", Local: "iq"}, name("message")}[nameC]
+	id := []string{ProbeID, "other-" + ProbeID, "-"}[idC]
+	typ := []string{"result", "error", "get", "set", "-", "foo"}[typC]
+	ts := el(n, iqAttrs(id, typ))
+	for l := level; l > 0; l-- {
+		ts = el(xml.Name{Space: "urn:w", Local: fmt.Sprintf("w%d", l-1)}, nil, ts...)
+	}
+	return ts
+}
+
+// ProbeID is the id of the request of the detector probe.
+const ProbeID = "pq"
+
+// probeDetected runs one real session on the request `<iq type="get" id="pq" …>` whose handler
+// writes the tokens through the given method and reports whether the session took that for the
+// reply (nothing was added); ok = false when the run did not end the way a probe must.
+func probeDetected(via int, ts []xml.Token) (detected, ok bool) {
+	body := []byte(`<iq type="get" id="` + ProbeID + `" from="a@example.org/r"><q xmlns="urn:q"/></iq></stream:stream>`)
+	res := c08.Serve(c08.NSClient, c08.LocalJID, c08.RemoteJID, body, []c08.Prog{{Ret: "ok", Ops: []c08.Op{{Write: ts, Via: via}}}}, nil)
+	if res.Stall || res.Panic != "" || res.Err != nil || len(res.Invs) != 1 || len(res.Invs[0].WErr) != 0 {
+		return false, false
+	}
+	els, _, err := c08.Written(c08.NSClient, res.Out)
 	if err != nil {
-		return "", err
+		return false, false
 	}
-	src := func(n ast.Node) string {
-		var sb strings.Builder
-		_ = printer.Fprint(&sb, fset, n)
-		return sb.String()
+	switch len(els) {
+	case 1:
+		return true, true
+	case 2:
+		last := els[1]
+		return false, last.Local == "iq" && last.Typ == "error" && last.SU && last.ID == ProbeID
 	}
+	return false, false
+}
+
+// Facts regenerates lean/XmppModel/Generated/C07.lean by PROBING the real reply detector: real
+// sessions whose handler writes every shape of the finite domain nesting level 0..2 x 5 name
+// classes x 3 id classes x 6 type classes through every method of the encoder it is handed
+// (EncodeToken; Encode with a Marshaler / WriterTo / TokenReader / plain struct; EncodeElement
+// with a Marshaler / WriterTo), observing whether the session then adds its own reply.  No
+// source pattern is matched: the table survives any refactoring of responseChecker and changes
+// when a write path stops running the detector or the detector's predicate changes.
+func Facts(repo string) (string, error) {
 	var rows []string
-	for _, d := range f.Decls {
-		fd, ok := d.(*ast.FuncDecl)
-		if !ok || fd.Recv == nil || len(fd.Recv.List) != 1 || fd.Body == nil {
-			continue
-		}
-		if src(fd.Recv.List[0].Type) != "*responseChecker" || len(fd.Recv.List[0].Names) != 1 {
-			continue
-		}
-		recv := fd.Recv.List[0].Names[0].Name
-		// every call in the body that is handed a writer or is a method of one
-		var sinks []string
-		detector := false
-		ast.Inspect(fd.Body, func(n ast.Node) bool {
-			switch x := n.(type) {
-			case *ast.AssignStmt:
-				if len(x.Lhs) == 1 && src(x.Lhs[0]) == recv+".wroteResp" {
-					detector = true
-				}
-			case *ast.CallExpr:
-				fn := src(x.Fun)
-				switch {
-				case strings.HasPrefix(fn, "marshal.") && len(x.Args) > 0:
-					a := src(x.Args[0])
-					if a == recv {
-						a = "checker"
+	bad := false
+	for via := 0; via <= 6; via++ {
+		for level := 0; level <= 2; level++ {
+			for nameC := 0; nameC < 5; nameC++ {
+				for idC := 0; idC < 3; idC++ {
+					for typC := 0; typC < 6; typC++ {
+						// the whole domain through EncodeToken; through the other methods the
+						// part that decides whether the detector ran at all and at which level
+						if via != 0 && (level == 2 || nameC == 2 || nameC == 4 || idC == 2 || typC == 1 || typC == 3 || typC == 5) {
+							continue
+						}
+						ts := ProbeToks(level, nameC, idC, typC)
+						if !applicable(via, ts) {
+							continue
+						}
+						d, ok := probeDetected(via, ts)
+						if !ok {
+							bad = true
+						}
+						rows = append(rows, fmt.Sprintf("(%d, %d, %d, %d, %d, %v)", via, level, nameC, idC, typC, d))
 					}
-					sinks = append(sinks, fn+"("+a+")")
-				case strings.HasSuffix(fn, ".EncodeToken") || strings.HasSuffix(fn, ".Encode") || strings.HasSuffix(fn, ".EncodeElement"):
-					sinks = append(sinks, strings.Replace(fn, recv+".", "checker.", 1))
 				}
 			}
-			return true
-		})
-		if len(sinks) == 0 {
-			continue
 		}
-		if detector {
-			sinks = append([]string{"detector"}, sinks...)
-		}
-		rows = append(rows, fmt.Sprintf("(%q, %q)", fd.Name.Name, strings.Join(sinks, " ")))
 	}
-	sort.Strings(rows)
 	var sb strings.Builder
-	sb.WriteString("-- GENERATED by `harness facts C07` from the AST of session.go; do not edit.\n")
+	sb.WriteString("-- GENERATED by `harness facts C07` (real sessions probing the reply detector); do not edit.\n")
 	sb.WriteString("namespace XmppModel.Generated.C07\n\n")
-	sb.WriteString("/-- every method of `responseChecker` that writes, and where its tokens go: `checker` = back\nthrough the checker's own `EncodeToken` (which runs the reply detector), `checker.TokenWriter` =\nstraight to the session's writer -/\n")
-	if len(rows) == 0 {
-		sb.WriteString("def writePaths : Option (List (String × String)) := none\n")
+	sb.WriteString("/-- (write method, nesting level, name class, id class, type class, did the session take what the\nhandler wrote for the reply) for every probed shape; methods: 0 EncodeToken, 1-4 Encode(Marshaler /\nWriterTo / TokenReader / struct), 5-6 EncodeElement(Marshaler / WriterTo) -/\n")
+	if bad || len(rows) == 0 {
+		sb.WriteString("def detectorProbe : Option (List (Nat × Nat × Nat × Nat × Nat × Bool)) := none\n")
 	} else {
-		sb.WriteString("def writePaths : Option (List (String × String)) := some [\n  " + strings.Join(rows, ",\n  ") + "]\n")
+		sb.WriteString("def detectorProbe : Option (List (Nat × Nat × Nat × Nat × Nat × Bool)) := some [\n  " + strings.Join(rows, ",\n  ") + "]\n")
 	}
 	sb.WriteString("\nend XmppModel.Generated.C07\n")
 	return sb.String(), nil
